@@ -63,14 +63,15 @@ int main(int argc, char **argv) {
     const char *comments[] = {"c a comment\n", "# hash comment 1 2 3\n", "c\n"};
     int maxlines = th ? 4 : 3;
     for (int n = 0; n <= 4; n++) {
-        // edge-line alphabet: (u,v) over 1..n+1 (n+1 = undeclared), type, weight form
+        // edge-line alphabet: (u,v) over -1..n+1 (n+1, 0 and -1 = undeclared: ids are 1-based), type, weight form
         struct EL { int u, v; char t; int wf; };
         std::vector<EL> alpha;
-        for (int u = 1; u <= n + 1; u++) for (int v = 1; v <= n + 1; v++) {
+        for (int u = -1; u <= n + 1; u++) for (int v = -1; v <= n + 1; v++) {
             if (u > 3 && v > 3 && n == 4 && u != v) continue;    // thin the alphabet a little
+            if ((u < 1 && v < 1) || (u < 1 && v > n) || (v < 1 && u > n)) continue;   // one undeclared endpoint at a time is enough below the range
             for (char t : {'e', 'a'}) for (int wf = 0; wf < NW; wf++) {
                 if (t == 'a' && wf > 2) continue;
-                if ((u == n + 1 || v == n + 1) && wf > 0) continue;
+                if ((u == n + 1 || v == n + 1 || u < 1 || v < 1) && wf > 0) continue;
                 alpha.push_back({u, v, t, wf});
             }
         }
@@ -92,7 +93,7 @@ int main(int argc, char **argv) {
                         text += std::string(1, el.t) + " " + std::to_string(el.u) + " " + std::to_string(el.v) + wforms[el.wf] + "\n";
                         if (cm == 3 && i + 1 < seq.size()) text += comments[i % 3];
                         if (!ex.error) {
-                            if (el.u > n || el.v > n) ex.error = true;
+                            if (el.u > n || el.v > n || el.u < 1 || el.v < 1) ex.error = true;
                             else { ex.edges.push_back({el.u - 1, el.v - 1}); ex.w.push_back(wvals[el.wf]); }
                         }
                     }
@@ -136,7 +137,7 @@ int main(int argc, char **argv) {
         }
     }
     st.print("e3_dimacs", false,
-            "grammar enumerator: n<=4 declared vertices, <=3 (thorough 4) edge lines over (endpoints incl. one undeclared vertex) x {e,a} x weight forms {omitted,5,2.5,-3,0,17,0.125}, exhaustive for <=1 line and strided beyond, x 4 comment placements x {final newline, none}; predicates on every multigraph (loops allowed) with <=4 vertices and <=4 (5) edges; distinct by text",
+            "grammar enumerator: n<=4 declared vertices, <=3 (thorough 4) edge lines over (endpoints incl. the undeclared ids n+1, 0 and -1) x {e,a} x weight forms {omitted,5,2.5,-3,0,17,0.125}, exhaustive for <=1 line and strided beyond, x 4 comment placements x {final newline, none}; predicates on every multigraph (loops allowed) with <=4 vertices and <=4 (5) edges; distinct by text",
             std::string("maxlines=") + std::to_string(maxlines) + " maxe=" + std::to_string(maxe));
     return 0;
 }
